@@ -7,9 +7,14 @@
 3. S->I: spec/Gen_Backends.tla makes TLC print random mutation histories with, after every step, the predicted
    state and the admissible set of every query; harness/replay_backends executes them on a real BackendMap.
 4. I->S: harness/drive_backends performs seeded random histories on a real BackendMap (two clusters interleaved,
-   real connects incl. immediate connection errors, real back-off policy pinned through the retry_force hook) and
+   real connects incl. immediate connection errors, the real back-off policy on its own clock: time passes by
+   moving last_try into the past before the next call) and
    TLC (spec/Trace_Backends.tla) accepts iff every call's result and post-state is what the spec allows.
    A corrupted copy of the trace must be rejected (self-test of the binding).
+5. Self-test switches (ColdStartTable, FailKeepsClock, SucceedKeepsWait: classes of defects found by seeded changes)
+   must each make TLC refute the property; two focused generators (Gen_Backends.tla FocusSpec: "aff" = the policy
+   object installed again on a populated cluster whose eligible set moves; "backoff" = failure / time / success
+   sequences with the real retry budget) feed the same replayer.
 """
 import json
 import os
@@ -22,7 +27,37 @@ PID = "C12"
 ALL_OPS = ["Add", "Remove", "SetPolicy", "Health", "ResetHealth", "RetryFail", "RetrySucceed", "Elapse",
            "SetClosing", "Inc", "Dec", "ReqStart", "ReqEnd"]
 INVS = ("TypeOK P_C12_OnlyEligible P_C12_BackupLast P_C12_StickyWins P_C12_Serves P_C12_Affinity "
-        "P_C12_Counters P_C12_Retired")
+        "P_C12_TableCurrent P_C12_WindowExact P_C12_Counters P_C12_Retired")
+
+# switches that model a class of defect (found by seeded changes); TLC must refute one of the listed invariants
+SELF_TESTS = {
+    "ColdStartTable": dict(invs=["P_C12_Affinity"], steps=9, configs="MCConfigs1", stickies="{}"),
+    "FailKeepsClock": dict(invs=["P_C12_OnlyEligible"], steps=4, configs="MCConfigsSticky", stickies='{"s1"}'),
+    "SucceedKeepsWait": dict(invs=["P_C12_StickyWins", "P_C12_Serves"], steps=4, configs="MCConfigsSticky", stickies='{"s1"}'),
+}
+
+SELF_CFG = """SPECIFICATION Spec
+CONSTANTS
+  Ids = {"b1", "b2"}
+  Addrs = {1, 2}
+  Slots <- MCSlots2
+  Configs <- %(configs)s
+  Keys = {1}
+  Stickies = %(stickies)s
+  Policies = {"maglev"}
+  Metrics = {"conns"}
+  MaxTries = 2
+  Thresholds = {1}
+  HCap = 1
+  MaxSteps = %(steps)d
+  MaxLoad = 0
+  Elapses = {1}
+  AgeCap = 4
+  Deviations = {"%(dev)s"}
+VIEW view
+INVARIANTS TypeOK %(invs)s
+CHECK_DEADLOCK FALSE
+"""
 
 MC_CFG = """SPECIFICATION Spec
 CONSTANTS
@@ -39,6 +74,8 @@ CONSTANTS
   HCap = 2
   MaxSteps = %(steps)d
   MaxLoad = %(load)s
+  Elapses = {1, 3}
+  AgeCap = 4
   Deviations = %(dev)s
 %(view)s
 INVARIANTS %(invs)s
@@ -46,25 +83,40 @@ PROPERTY P_C12_GrowOnlyNormal
 CHECK_DEADLOCK FALSE
 """
 
-GEN_CFG = """SPECIFICATION GenSpec
+GEN_CFG = """SPECIFICATION %(spec)s
 CONSTANTS
   Ids = {"b1", "b2", "b3"}
   Addrs = {1, 2, 3}
-  Slots <- MCSlots4
-  Configs <- MCConfigsGen
+  Slots <- %(slots)s
+  Configs <- %(configs)s
   Keys = {1, 2}
   Stickies = {"s1", "s2"}
-  Policies <- AllPolicies
+  Policies %(policies)s
   Metrics = {"conns", "reqs"}
-  MaxTries = 2
+  MaxTries = %(tries)d
   Thresholds = {1, 2}
   HCap = 2
   MaxSteps = %(steps)d
   MaxLoad = 3
+  Elapses = %(elapses)s
+  AgeCap = %(agecap)d
+  Focus = "%(focus)s"
   Deviations = %(dev)s
 INVARIANTS EmitHist
 CHECK_DEADLOCK FALSE
 """
+
+# the three generators of the S->I leg: (name, cfg parameters, share of the histories, replayer's retry budget / age cap)
+GENERATORS = [
+    ("main", dict(spec="GenSpec", focus="none", slots="MCSlots4", configs="MCConfigsGen", policies="<- AllPolicies",
+                  tries=2, elapses="{1, 2, 3}", agecap=4), 1.0),
+    # the policy object (re)installed on a populated cluster, eligible set moving; three addresses, three weights
+    ("aff", dict(spec="FocusSpec", focus="aff", slots="MCSlots4", configs="MCConfigsAff", policies='= {"hrw", "maglev"}',
+                 tries=2, elapses="{1, 3}", agecap=4), 0.75),
+    # failure / time / success sequences with the budget of Backend::new (6: windows up to 63 s)
+    ("backoff", dict(spec="FocusSpec", focus="backoff", slots="MCSlots3", configs="MCConfigs", policies="<- AllPolicies",
+                     tries=6, elapses="{1, 1, 2, 3, 4, 8, 16, 32, 64}", agecap=64), 0.5),
+]
 
 TRACE_CFG = """SPECIFICATION TraceSpec
 CONSTANTS
@@ -81,6 +133,8 @@ CONSTANTS
   HCap = 1000000
   MaxSteps = 1000000000
   MaxLoad = 1000000000
+  Elapses = {}
+  AgeCap = 64
   Deviations = %(dev)s
 CONSTRAINT Track
 INVARIANTS TypeOK P_C12_OnlyEligible P_C12_BackupLast P_C12_StickyWins P_C12_Serves P_C12_Counters P_C12_Retired%(aff)s
@@ -210,51 +264,81 @@ def run(tier, replay=None):
         if not rd["violated"]:
             raise vlib.ToolError("deviation %s no longer violates P_C12 in the model" % d)
         vlib.log("deviation %s: TLC counterexample to %s as expected" % (d, rd["violated"]))
+    for d, st in SELF_TESTS.items():
+        rd = vlib.tlc("MC_Backends", write(wd, "mc_self_%s.cfg" % d, SELF_CFG % {
+            "dev": d, "steps": st["steps"], "configs": st["configs"], "stickies": st["stickies"], "invs": " ".join(st["invs"])}),
+            PID, workers=4, timeout=600)
+        rep.add_tlc(rd)
+        if rd["violated"] not in st["invs"]:
+            raise vlib.ToolError("self-test switch %s: TLC did not refute %s (violated=%s)" % (d, st["invs"], rd["violated"]))
+        vlib.log("self-test switch %s: TLC counterexample to %s as expected" % (d, rd["violated"]))
+    rep.extra["self_test_switches_refuted"] = sorted(SELF_TESTS)
 
-    # 3. S->I: TLC generates histories + oracle, the replayer executes them on the real BackendMap
-    beh = os.path.join(wd, "behaviours.ndjson")
+    # 3. S->I: TLC generates histories + oracle (one general and two focused generators), the replayer executes
+    #    them on the real BackendMap
     gen_workers = 8
     n_hist = 4000 if thorough else 320
-    with open(beh, "w") as f:
-        g = vlib.tlc("Gen_Backends", write(wd, "gen.cfg", GEN_CFG % {"steps": 16 if thorough else 12, "dev": tla_set(devs)}),
-                     PID, workers=gen_workers, timeout=1500, simulate="num=%d" % (n_hist // gen_workers), depth=20,
-                     want_replay=True, replay_sink=lambda o: f.write(json.dumps(o) + "\n"))
-    rep.cov["transitions"] += sim_states(g)
-    if g["violated"] or g["n_replays"] == 0:
-        raise vlib.ToolError("generator run failed: violated=%s histories=%d" % (g["violated"], g["n_replays"]))
     histories = 0
     joint = 0
     by_op = {}
-    for variant in ([0, 1, 2] if thorough else [0, 1]):
-        out = vlib.run_harness(bins["replay_backends"],
-                               ["--seed", str(seed * 7 + variant), "--reps", "4", "--hcap", "2", "--max-tries", "2",
-                                "--deviations", ",".join(devs)], stdin_path=beh, timeout=1500)
-        summ = [o for o in out if o.get("kind") == "summary"]
-        if not summ:
-            raise vlib.ToolError("replay_backends produced no summary")
-        summ = summ[0]
-        histories += summ["histories"]
-        joint = max(joint, summ["joint_state_combinations"])
-        rep.cov["evaluations"] += summ["probes"]
-        for k, v in summ["by_op"].items():
-            by_op[k] = by_op.get(k, 0) + v
-        if variant == 0:
-            rep.add_samples(summ["samples"], 2)
-            rep.extra["replay_probes_with_several_admissible"] = summ["probes_with_several_admissible"]
-            rep.extra["replay_per_backend_state_combinations"] = summ["per_backend_state_combinations"]
-            rep.extra["replay_affinity_points"] = summ["affinity_points"]
-        for _ in range(summ["deviation_explained"]):
-            rep.known_finding_seen("maglev-rebuild")
-        inconclusive = [v for v in out if v.get("kind") == "violation" and v["class"].startswith("harness:")]
-        if len(inconclusive) * 20 > max(1, summ["histories"]):
-            raise vlib.ToolError("replay_backends: %d inconclusive histories: %s" % (len(inconclusive), inconclusive[0]["detail"]["what"][:200]))
-        rep.extra["replay_inconclusive_histories"] = rep.extra.get("replay_inconclusive_histories", 0) + len(inconclusive)
-        for v in out:
-            if v.get("kind") == "violation" and not v["class"].startswith("harness:"):
-                # the replay file is the generated behaviour itself (./check C12 --replay re-executes it)
-                n = v["detail"].get("behaviour", 0)
-                rep.violation(v["class"], v["detail"]["what"][:250], _line(beh, n) or v,
-                              name="behaviour_%d_v%d.ndjson" % (n, variant))
+    backoff = {}
+    inconclusive_total = 0
+    for gname, gpar, share in GENERATORS:
+        beh = os.path.join(wd, "behaviours_%s.ndjson" % gname)
+        par = dict(gpar)
+        par.update(steps=(16 if thorough else 12) + (8 if gname == "backoff" else 0), dev=tla_set(devs))
+        with open(beh, "w") as f:
+            g = vlib.tlc("Gen_Backends", write(wd, "gen_%s.cfg" % gname, GEN_CFG % par),
+                         PID, workers=gen_workers, timeout=1500, simulate="num=%d" % max(1, int(n_hist * share) // gen_workers),
+                         depth=par["steps"] + 4, want_replay=True, replay_sink=lambda o: f.write(json.dumps(o) + "\n"))
+        rep.cov["transitions"] += sim_states(g)
+        if g["violated"] or g["n_replays"] == 0:
+            raise vlib.ToolError("generator %s failed: violated=%s histories=%d" % (gname, g["violated"], g["n_replays"]))
+        for variant in ([0, 1, 2] if thorough else [0, 1]):
+            out = vlib.run_harness(bins["replay_backends"],
+                                   ["--seed", str(seed * 7 + variant), "--reps", "4", "--hcap", "2",
+                                    "--max-tries", str(par["tries"]), "--age-cap", str(par["agecap"]),
+                                    "--deviations", ",".join(devs)], stdin_path=beh, timeout=1500)
+            summ = [o for o in out if o.get("kind") == "summary"]
+            if not summ:
+                raise vlib.ToolError("replay_backends produced no summary")
+            summ = summ[0]
+            histories += summ["histories"]
+            joint = max(joint, summ["joint_state_combinations"])
+            rep.cov["evaluations"] += summ["probes"]
+            for k, v in summ["by_op"].items():
+                by_op[k] = by_op.get(k, 0) + v
+            for k, v in summ["backoff"].items():
+                backoff[k] = max(backoff.get(k, 0), v) if k.startswith("max_") else backoff.get(k, 0) + v
+            if variant == 0 and gname == "main":
+                rep.add_samples(summ["samples"], 2)
+                rep.extra["replay_probes_with_several_admissible"] = summ["probes_with_several_admissible"]
+                rep.extra["replay_per_backend_state_combinations"] = summ["per_backend_state_combinations"]
+            if variant == 0:
+                rep.extra["replay_affinity_points_%s" % gname] = summ["affinity_points"]
+            for _ in range(summ["deviation_explained"]):
+                rep.known_finding_seen("maglev-rebuild")
+            # verdicts first: a mismatch is reported; only then the inconclusive histories are weighed
+            for v in out:
+                if v.get("kind") == "violation" and not v["class"].startswith("harness:"):
+                    # the replay file is the generated behaviour itself (./check C12 --replay re-executes it)
+                    n = v["detail"].get("behaviour", 0)
+                    rep.violation(v["class"], v["detail"]["what"][:250], _line(beh, n) or v,
+                                  name="behaviour_%s_%d_v%d.ndjson" % (gname, n, variant))
+            inconclusive = [v for v in out if v.get("kind") == "violation" and v["class"].startswith("harness:")]
+            inconclusive_total += len(inconclusive)
+            if len(inconclusive) * 20 > max(1, summ["histories"]) and not rep.violations:
+                raise vlib.ToolError("replay_backends (%s): %d of %d histories inconclusive: %s"
+                                     % (gname, len(inconclusive), summ["histories"], inconclusive[0]["detail"]["what"][:200]))
+    rep.extra["replay_inconclusive_histories"] = inconclusive_total
+    rep.extra["replay_backoff"] = backoff
+    if not rep.violations:
+        # vacuity of the time part: counted and ignored failures, windows beyond the first, selections next to a
+        # backend inside its window, the policy object installed on a populated cluster
+        if not (backoff.get("counted_failures") and backoff.get("ignored_failures") and backoff.get("max_window_seen", 0) >= 2
+                and backoff.get("max_tries_seen", 0) >= 4 and backoff.get("selections_with_a_backend_in_its_window")
+                and backoff.get("reinstalls_on_populated_cluster")):
+            raise vlib.ToolError("vacuous generator run (back-off / re-install coverage): %s" % backoff)
     missing = [o for o in ALL_OPS if by_op.get(o, 0) == 0]
     if missing:
         raise vlib.ToolError("vacuous generator run: operations never generated: %s" % missing)
@@ -264,6 +348,10 @@ def run(tier, replay=None):
     runs = 1500 if thorough else 250
     out = vlib.run_harness(bins["drive_backends"], ["--seed", str(seed), "--runs", str(runs), "--steps", "80",
                                                     "--out", trace], timeout=1500)
+    dsumm = [o for o in out if o.get("kind") == "summary"]
+    if dsumm and dsumm[0]["slow_runs"] * 10 > runs:
+        raise vlib.ToolError("drive_backends: %d of %d runs did not fit into the real-time slack (machine overloaded)"
+                             % (dsumm[0]["slow_runs"], runs))
     summ = [o for o in out if o.get("kind") == "summary"]
     if not summ:
         raise vlib.ToolError("drive_backends produced no summary")
@@ -281,6 +369,13 @@ def run(tier, replay=None):
     rep.extra["trace_events"] = summ["events"]
     rep.extra["trace_events_by_action"] = summ["by_action"]
     rep.extra["trace_immediate_connect_errors"] = summ["connect_fail"]
+    rep.extra["trace_runs_by_profile"] = summ["runs_by_profile"]
+    rep.extra["trace_slow_runs_dropped"] = summ["slow_runs"]
+    rep.extra["trace_max_tries_seen"] = summ["max_tries_seen"]
+    rep.extra["trace_max_window_seen"] = summ["max_window_seen"]
+    if summ["max_tries_seen"] < 6 or summ["max_window_seen"] < 4:
+        raise vlib.ToolError("vacuous driver run: no failure streak up to the retry budget (tries %s, window %s s)"
+                             % (summ["max_tries_seen"], summ["max_window_seen"]))
     rt = validate_trace(rep, wd, trace, devs, "main")
     rep.add_tlc(rt)
     accepted_traces = 0
@@ -322,7 +417,8 @@ def run(tier, replay=None):
                        "x available) combinations in which the real code was probed by the replayer"
                        % (depth, mc_states, histories, accepted_traces, summ["events"]))
     rep.assumptions += [
-        "back-off windows are opened by the real RetryPolicy::fail() but kept open / ended by the harness through the cfg(sozu_verif) hook verif_set (no wall-clock waits); the random duration of a window is not observed",
+        "back-off: fail() / succeed() / can_try() are the real ones on real Instants; time passes by moving last_try into the past (cfg(sozu_verif) hook verif_age_by) before the next call, windows and try counts are only read (verif_get); whole seconds only - the real time a history takes (bounded by a 400 ms slack, else repeated / dropped) adds to every age, so a boundary error of less than a second (e.g. > for >=) is not seen",
+        "the length of a window is drawn by sozu's unseeded RNG: it is checked against the spec's range 1..2^tries-1 and, in the S->I leg only, then replaced by the length TLC drew (verif_set with the observed try count and age) so that the generated history can go on",
         "active_requests is a public field maintained by session code; the harness performs the same += 1 / saturating_sub(1) itself, so only its use by the load-based policies is checked here, not the sessions' bookkeeping",
         "the LoadMetric ConnectionTime (peak EWMA, floating point) is not driven; HealthState is driven through record_success / record_failure directly, not through the health checker's sockets",
         "selection is a relation: rr/random may return any eligible backend; leastLoaded a minimum; p2c one of the two least loaded; hrw/maglev the same address for the same key while the eligible set (ids, addresses, weights) is the same",
